@@ -86,10 +86,6 @@ func runNotFoundExit(rc *RuleCtx) {
 						exhaustion = append(exhaustion, [2]*ssa.BasicBlock{b, s})
 						continue
 					}
-					// a non-header exit that is not a plain return block is a break
-					if _, isRet := lastInstr(s).(*ssa.Return); isRet && len(s.Instrs) <= 3 {
-						continue
-					}
 					if _, isPanic := lastInstr(s).(*ssa.Panic); isPanic {
 						continue
 					}
